@@ -488,15 +488,22 @@ static void evp_point(long v, node_handle n, long d, _Bool di, struct edge_value
     else if (di) { *pn = OMEGA_INFINITY; pv->ev_long = 0; }
     else { *pn = OMEGA_NORMAL; pv->ev_long = v + d; }
 }
+/* a terminal of an identity-reduced forest reached across skipped levels is the identity pattern: off the diagonal it is the transparent value
+ * (EV+: infinity).  The ghost 'di', otherwise unused for a terminal operand, selects 'off the diagonal'. */
+static void evp_point_f(const struct forest *f, long v, node_handle n, long d, _Bool di, struct edge_value *pv, node_handle *pn)
+{
+    if (n == OMEGA_NORMAL && forest__isIdentityReduced(f) && di) { pv->mytype = edge_type__LONG; *pn = OMEGA_INFINITY; pv->ev_long = 0; }
+    else evp_point(v, n, d, di, pv, pn);
+}
 int lemma_evplus_mult_shortcuts_pw(struct forest *f1, struct forest *f2, const struct edge_value *av_, node_handle ap, const struct edge_value *bv_, node_handle bp, long da, _Bool dai, long db, _Bool dbi)
 {
     int ok = 0;
     struct edge_value pa, pb, cv, want; node_handle pan, pbn, cn, wn;
-    evp_point(av_->ev_long, ap, da, dai, &pa, &pan); evp_point(bv_->ev_long, bp, db, dbi, &pb, &pbn);
+    evp_point_f(f1, av_->ev_long, ap, da, dai, &pa, &pan); evp_point_f(f2, bv_->ev_long, bp, db, dbi, &pb, &pbn);
     { struct edge_value a1 = *av_; node_handle an1 = ap;
       if (evplus_mult__simplifiesToFirstArg(0, f1, &a1, &an1, f2, bv_, bp)) {
           if (an1 == ap || an1 <= 0) {                      /* the answer <a1, an1>: the same node carries the same ghost offset */
-              evp_point(a1.ev_long, an1, da, dai, &want, &wn);
+              evp_point_f(f1, a1.ev_long, an1, da, dai, &want, &wn);
               evplus_mult__apply(&pa, pan, &pb, pbn, &cv, &cn);
               if (verif_exc == 0 && cn == wn && (cn == OMEGA_INFINITY || (cv.mytype == edge_type__LONG && cv.ev_long == want.ev_long))) ok |= 1;
               verif_exc = 0;
@@ -504,7 +511,7 @@ int lemma_evplus_mult_shortcuts_pw(struct forest *f1, struct forest *f2, const s
       } else ok |= 1; }
     { struct edge_value a1 = *av_; node_handle an1 = ap;
       if (evplus_mult__simplifiesToSecondArg(0, f1, &a1, &an1, f2, bv_, bp)) {
-          evp_point(bv_->ev_long, bp, db, dbi, &want, &wn);
+          evp_point_f(f2, bv_->ev_long, bp, db, dbi, &want, &wn);
           evplus_mult__apply(&pa, pan, &pb, pbn, &cv, &cn);
           if (verif_exc == 0 && cn == wn && (cn == OMEGA_INFINITY || (cv.mytype == edge_type__LONG && cv.ev_long == want.ev_long))) ok |= 2;
           verif_exc = 0;
@@ -517,11 +524,11 @@ int lemma_evplus_div_shortcuts_pw(struct forest *f1, struct forest *f2, const st
 {
     int ok = 0;
     struct edge_value pa, pb, cv, want; node_handle pan, pbn, cn, wn;
-    evp_point(av_->ev_long, ap, da, dai, &pa, &pan); evp_point(bv_->ev_long, bp, db, dbi, &pb, &pbn);
+    evp_point_f(f1, av_->ev_long, ap, da, dai, &pa, &pan); evp_point_f(f2, bv_->ev_long, bp, db, dbi, &pb, &pbn);
     { struct edge_value a1 = *av_; node_handle an1 = ap;
       if (evplus_div__simplifiesToFirstArg(0, f1, &a1, &an1, f2, bv_, bp)) {
           if (an1 == ap || an1 <= 0) {                      /* the answer <a1, an1>: the same node carries the same ghost offset */
-              evp_point(a1.ev_long, an1, da, dai, &want, &wn);
+              evp_point_f(f1, a1.ev_long, an1, da, dai, &want, &wn);
               evplus_div__apply(&pa, pan, &pb, pbn, &cv, &cn);
               if (verif_exc == 0 && cn == wn && (cn == OMEGA_INFINITY || (cv.mytype == edge_type__LONG && cv.ev_long == want.ev_long))) ok |= 1;
               verif_exc = 0;
@@ -529,7 +536,7 @@ int lemma_evplus_div_shortcuts_pw(struct forest *f1, struct forest *f2, const st
       } else ok |= 1; }
     { struct edge_value a1 = *av_; node_handle an1 = ap;
       if (evplus_div__simplifiesToSecondArg(0, f1, &a1, &an1, f2, bv_, bp)) {
-          evp_point(bv_->ev_long, bp, db, dbi, &want, &wn);
+          evp_point_f(f2, bv_->ev_long, bp, db, dbi, &want, &wn);
           evplus_div__apply(&pa, pan, &pb, pbn, &cv, &cn);
           if (verif_exc == 0 && cn == wn && (cn == OMEGA_INFINITY || (cv.mytype == edge_type__LONG && cv.ev_long == want.ev_long))) ok |= 2;
           verif_exc = 0;
@@ -542,11 +549,11 @@ int lemma_evplus_mod_shortcuts_pw(struct forest *f1, struct forest *f2, const st
 {
     int ok = 0;
     struct edge_value pa, pb, cv, want; node_handle pan, pbn, cn, wn;
-    evp_point(av_->ev_long, ap, da, dai, &pa, &pan); evp_point(bv_->ev_long, bp, db, dbi, &pb, &pbn);
+    evp_point_f(f1, av_->ev_long, ap, da, dai, &pa, &pan); evp_point_f(f2, bv_->ev_long, bp, db, dbi, &pb, &pbn);
     { struct edge_value a1 = *av_; node_handle an1 = ap;
       if (evplus_mod__simplifiesToFirstArg(0, f1, &a1, &an1, f2, bv_, bp)) {
           if (an1 == ap || an1 <= 0) {                      /* the answer <a1, an1>: the same node carries the same ghost offset */
-              evp_point(a1.ev_long, an1, da, dai, &want, &wn);
+              evp_point_f(f1, a1.ev_long, an1, da, dai, &want, &wn);
               evplus_mod__apply(&pa, pan, &pb, pbn, &cv, &cn);
               if (verif_exc == 0 && cn == wn && (cn == OMEGA_INFINITY || (cv.mytype == edge_type__LONG && cv.ev_long == want.ev_long))) ok |= 1;
               verif_exc = 0;
@@ -554,7 +561,7 @@ int lemma_evplus_mod_shortcuts_pw(struct forest *f1, struct forest *f2, const st
       } else ok |= 1; }
     { struct edge_value a1 = *av_; node_handle an1 = ap;
       if (evplus_mod__simplifiesToSecondArg(0, f1, &a1, &an1, f2, bv_, bp)) {
-          evp_point(bv_->ev_long, bp, db, dbi, &want, &wn);
+          evp_point_f(f2, bv_->ev_long, bp, db, dbi, &want, &wn);
           evplus_mod__apply(&pa, pan, &pb, pbn, &cv, &cn);
           if (verif_exc == 0 && cn == wn && (cn == OMEGA_INFINITY || (cv.mytype == edge_type__LONG && cv.ev_long == want.ev_long))) ok |= 2;
           verif_exc = 0;
@@ -566,14 +573,16 @@ void h_evplus_mod_shortcuts_pw(void) { struct forest *f1, *f2; struct edge_value
 int lemma_mt_plus_shortcuts_pw(struct forest *fa, struct forest *fb, struct forest *fc, node_handle a, node_handle b, node_handle pa, node_handle pb)
 {
     int ok = 0;
-    node_handle va = a > 0 ? pa : a, vb = b > 0 ? pb : b, c;     /* the operands' values at the assignment, as terminal handles */
+    /* the operands' values at the assignment, as terminal handles.  A terminal of an identity-reduced forest reached across skipped levels is the
+     * identity pattern: its value off the diagonal is 0 (the otherwise unused ghost of a terminal operand selects 'off the diagonal') */
+    node_handle va = a > 0 ? pa : ((forest__isIdentityReduced(fa) && pa == 0) ? 0 : a), vb = b > 0 ? pb : ((forest__isIdentityReduced(fb) && pb == 0) ? 0 : b), c;
     { node_handle a1 = a; c = 0;
       if (mt_plus__simplifiesToFirstArg(0, fa, &a1, fb, b)) {
-          if (a1 == a || a1 <= 0) { node_handle want = a1 > 0 ? pa : a1; mt_plus__apply(fa, va, fb, vb, fc, &c); if (verif_exc == 0 && c == want) ok |= 1; verif_exc = 0; }
+          if (a1 == a || a1 <= 0) { node_handle want = a1 == a ? va : a1; mt_plus__apply(fa, va, fb, vb, fc, &c); if (verif_exc == 0 && c == want) ok |= 1; verif_exc = 0; }
       } else ok |= 1; }
     { node_handle b1 = b; c = 0;
       if (mt_plus__simplifiesToSecondArg(0, fa, a, fb, &b1)) {
-          if (b1 == b || b1 <= 0) { node_handle want = b1 > 0 ? pb : b1; mt_plus__apply(fa, va, fb, vb, fc, &c); if (verif_exc == 0 && c == want) ok |= 2; verif_exc = 0; }
+          if (b1 == b || b1 <= 0) { node_handle want = b1 == b ? vb : b1; mt_plus__apply(fa, va, fb, vb, fc, &c); if (verif_exc == 0 && c == want) ok |= 2; verif_exc = 0; }
       } else ok |= 2; }
     return ok;
 }
@@ -581,14 +590,16 @@ void h_mt_plus_shortcuts_pw(void) { struct forest *fa, *fb, *fc; node_handle w_a
 int lemma_mt_minus_shortcuts_pw(struct forest *fa, struct forest *fb, struct forest *fc, node_handle a, node_handle b, node_handle pa, node_handle pb)
 {
     int ok = 0;
-    node_handle va = a > 0 ? pa : a, vb = b > 0 ? pb : b, c;     /* the operands' values at the assignment, as terminal handles */
+    /* the operands' values at the assignment, as terminal handles.  A terminal of an identity-reduced forest reached across skipped levels is the
+     * identity pattern: its value off the diagonal is 0 (the otherwise unused ghost of a terminal operand selects 'off the diagonal') */
+    node_handle va = a > 0 ? pa : ((forest__isIdentityReduced(fa) && pa == 0) ? 0 : a), vb = b > 0 ? pb : ((forest__isIdentityReduced(fb) && pb == 0) ? 0 : b), c;
     { node_handle a1 = a; c = 0;
       if (mt_minus__simplifiesToFirstArg(0, fa, &a1, fb, b)) {
-          if (a1 == a || a1 <= 0) { node_handle want = a1 > 0 ? pa : a1; mt_minus__apply(fa, va, fb, vb, fc, &c); if (verif_exc == 0 && c == want) ok |= 1; verif_exc = 0; }
+          if (a1 == a || a1 <= 0) { node_handle want = a1 == a ? va : a1; mt_minus__apply(fa, va, fb, vb, fc, &c); if (verif_exc == 0 && c == want) ok |= 1; verif_exc = 0; }
       } else ok |= 1; }
     { node_handle b1 = b; c = 0;
       if (mt_minus__simplifiesToSecondArg(0, fa, a, fb, &b1)) {
-          if (b1 == b || b1 <= 0) { node_handle want = b1 > 0 ? pb : b1; mt_minus__apply(fa, va, fb, vb, fc, &c); if (verif_exc == 0 && c == want) ok |= 2; verif_exc = 0; }
+          if (b1 == b || b1 <= 0) { node_handle want = b1 == b ? vb : b1; mt_minus__apply(fa, va, fb, vb, fc, &c); if (verif_exc == 0 && c == want) ok |= 2; verif_exc = 0; }
       } else ok |= 2; }
     return ok;
 }
@@ -596,14 +607,16 @@ void h_mt_minus_shortcuts_pw(void) { struct forest *fa, *fb, *fc; node_handle w_
 int lemma_mt_mult_shortcuts_pw(struct forest *fa, struct forest *fb, struct forest *fc, node_handle a, node_handle b, node_handle pa, node_handle pb)
 {
     int ok = 0;
-    node_handle va = a > 0 ? pa : a, vb = b > 0 ? pb : b, c;     /* the operands' values at the assignment, as terminal handles */
+    /* the operands' values at the assignment, as terminal handles.  A terminal of an identity-reduced forest reached across skipped levels is the
+     * identity pattern: its value off the diagonal is 0 (the otherwise unused ghost of a terminal operand selects 'off the diagonal') */
+    node_handle va = a > 0 ? pa : ((forest__isIdentityReduced(fa) && pa == 0) ? 0 : a), vb = b > 0 ? pb : ((forest__isIdentityReduced(fb) && pb == 0) ? 0 : b), c;
     { node_handle a1 = a; c = 0;
       if (mt_mult__simplifiesToFirstArg(0, fa, &a1, fb, b)) {
-          if (a1 == a || a1 <= 0) { node_handle want = a1 > 0 ? pa : a1; mt_mult__apply(fa, va, fb, vb, fc, &c); if (verif_exc == 0 && c == want) ok |= 1; verif_exc = 0; }
+          if (a1 == a || a1 <= 0) { node_handle want = a1 == a ? va : a1; mt_mult__apply(fa, va, fb, vb, fc, &c); if (verif_exc == 0 && c == want) ok |= 1; verif_exc = 0; }
       } else ok |= 1; }
     { node_handle b1 = b; c = 0;
       if (mt_mult__simplifiesToSecondArg(0, fa, a, fb, &b1)) {
-          if (b1 == b || b1 <= 0) { node_handle want = b1 > 0 ? pb : b1; mt_mult__apply(fa, va, fb, vb, fc, &c); if (verif_exc == 0 && c == want) ok |= 2; verif_exc = 0; }
+          if (b1 == b || b1 <= 0) { node_handle want = b1 == b ? vb : b1; mt_mult__apply(fa, va, fb, vb, fc, &c); if (verif_exc == 0 && c == want) ok |= 2; verif_exc = 0; }
       } else ok |= 2; }
     return ok;
 }
@@ -611,14 +624,16 @@ void h_mt_mult_shortcuts_pw(void) { struct forest *fa, *fb, *fc; node_handle w_a
 int lemma_mt_div_shortcuts_pw(struct forest *fa, struct forest *fb, struct forest *fc, node_handle a, node_handle b, node_handle pa, node_handle pb)
 {
     int ok = 0;
-    node_handle va = a > 0 ? pa : a, vb = b > 0 ? pb : b, c;     /* the operands' values at the assignment, as terminal handles */
+    /* the operands' values at the assignment, as terminal handles.  A terminal of an identity-reduced forest reached across skipped levels is the
+     * identity pattern: its value off the diagonal is 0 (the otherwise unused ghost of a terminal operand selects 'off the diagonal') */
+    node_handle va = a > 0 ? pa : ((forest__isIdentityReduced(fa) && pa == 0) ? 0 : a), vb = b > 0 ? pb : ((forest__isIdentityReduced(fb) && pb == 0) ? 0 : b), c;
     { node_handle a1 = a; c = 0;
       if (mt_div__simplifiesToFirstArg(0, fa, &a1, fb, b)) {
-          if (a1 == a || a1 <= 0) { node_handle want = a1 > 0 ? pa : a1; mt_div__apply(fa, va, fb, vb, fc, &c); if (verif_exc == 0 && c == want) ok |= 1; verif_exc = 0; }
+          if (a1 == a || a1 <= 0) { node_handle want = a1 == a ? va : a1; mt_div__apply(fa, va, fb, vb, fc, &c); if (verif_exc == 0 && c == want) ok |= 1; verif_exc = 0; }
       } else ok |= 1; }
     { node_handle b1 = b; c = 0;
       if (mt_div__simplifiesToSecondArg(0, fa, a, fb, &b1)) {
-          if (b1 == b || b1 <= 0) { node_handle want = b1 > 0 ? pb : b1; mt_div__apply(fa, va, fb, vb, fc, &c); if (verif_exc == 0 && c == want) ok |= 2; verif_exc = 0; }
+          if (b1 == b || b1 <= 0) { node_handle want = b1 == b ? vb : b1; mt_div__apply(fa, va, fb, vb, fc, &c); if (verif_exc == 0 && c == want) ok |= 2; verif_exc = 0; }
       } else ok |= 2; }
     return ok;
 }
@@ -626,14 +641,16 @@ void h_mt_div_shortcuts_pw(void) { struct forest *fa, *fb, *fc; node_handle w_a 
 int lemma_mt_mod_shortcuts_pw(struct forest *fa, struct forest *fb, struct forest *fc, node_handle a, node_handle b, node_handle pa, node_handle pb)
 {
     int ok = 0;
-    node_handle va = a > 0 ? pa : a, vb = b > 0 ? pb : b, c;     /* the operands' values at the assignment, as terminal handles */
+    /* the operands' values at the assignment, as terminal handles.  A terminal of an identity-reduced forest reached across skipped levels is the
+     * identity pattern: its value off the diagonal is 0 (the otherwise unused ghost of a terminal operand selects 'off the diagonal') */
+    node_handle va = a > 0 ? pa : ((forest__isIdentityReduced(fa) && pa == 0) ? 0 : a), vb = b > 0 ? pb : ((forest__isIdentityReduced(fb) && pb == 0) ? 0 : b), c;
     { node_handle a1 = a; c = 0;
       if (mt_mod__simplifiesToFirstArg(0, fa, &a1, fb, b)) {
-          if (a1 == a || a1 <= 0) { node_handle want = a1 > 0 ? pa : a1; mt_mod__apply(fa, va, fb, vb, fc, &c); if (verif_exc == 0 && c == want) ok |= 1; verif_exc = 0; }
+          if (a1 == a || a1 <= 0) { node_handle want = a1 == a ? va : a1; mt_mod__apply(fa, va, fb, vb, fc, &c); if (verif_exc == 0 && c == want) ok |= 1; verif_exc = 0; }
       } else ok |= 1; }
     { node_handle b1 = b; c = 0;
       if (mt_mod__simplifiesToSecondArg(0, fa, a, fb, &b1)) {
-          if (b1 == b || b1 <= 0) { node_handle want = b1 > 0 ? pb : b1; mt_mod__apply(fa, va, fb, vb, fc, &c); if (verif_exc == 0 && c == want) ok |= 2; verif_exc = 0; }
+          if (b1 == b || b1 <= 0) { node_handle want = b1 == b ? vb : b1; mt_mod__apply(fa, va, fb, vb, fc, &c); if (verif_exc == 0 && c == want) ok |= 2; verif_exc = 0; }
       } else ok |= 2; }
     return ok;
 }
@@ -641,14 +658,16 @@ void h_mt_mod_shortcuts_pw(void) { struct forest *fa, *fb, *fc; node_handle w_a 
 int lemma_mt_max_shortcuts_pw(struct forest *fa, struct forest *fb, struct forest *fc, node_handle a, node_handle b, node_handle pa, node_handle pb)
 {
     int ok = 0;
-    node_handle va = a > 0 ? pa : a, vb = b > 0 ? pb : b, c;     /* the operands' values at the assignment, as terminal handles */
+    /* the operands' values at the assignment, as terminal handles.  A terminal of an identity-reduced forest reached across skipped levels is the
+     * identity pattern: its value off the diagonal is 0 (the otherwise unused ghost of a terminal operand selects 'off the diagonal') */
+    node_handle va = a > 0 ? pa : ((forest__isIdentityReduced(fa) && pa == 0) ? 0 : a), vb = b > 0 ? pb : ((forest__isIdentityReduced(fb) && pb == 0) ? 0 : b), c;
     { node_handle a1 = a; c = 0;
       if (mt_max__simplifiesToFirstArg(0, fa, &a1, fb, b)) {
-          if (a1 == a || a1 <= 0) { node_handle want = a1 > 0 ? pa : a1; mt_max__apply(fa, va, fb, vb, fc, &c); if (verif_exc == 0 && c == want) ok |= 1; verif_exc = 0; }
+          if (a1 == a || a1 <= 0) { node_handle want = a1 == a ? va : a1; mt_max__apply(fa, va, fb, vb, fc, &c); if (verif_exc == 0 && c == want) ok |= 1; verif_exc = 0; }
       } else ok |= 1; }
     { node_handle b1 = b; c = 0;
       if (mt_max__simplifiesToSecondArg(0, fa, a, fb, &b1)) {
-          if (b1 == b || b1 <= 0) { node_handle want = b1 > 0 ? pb : b1; mt_max__apply(fa, va, fb, vb, fc, &c); if (verif_exc == 0 && c == want) ok |= 2; verif_exc = 0; }
+          if (b1 == b || b1 <= 0) { node_handle want = b1 == b ? vb : b1; mt_max__apply(fa, va, fb, vb, fc, &c); if (verif_exc == 0 && c == want) ok |= 2; verif_exc = 0; }
       } else ok |= 2; }
     return ok;
 }
@@ -656,14 +675,16 @@ void h_mt_max_shortcuts_pw(void) { struct forest *fa, *fb, *fc; node_handle w_a 
 int lemma_mt_min_shortcuts_pw(struct forest *fa, struct forest *fb, struct forest *fc, node_handle a, node_handle b, node_handle pa, node_handle pb)
 {
     int ok = 0;
-    node_handle va = a > 0 ? pa : a, vb = b > 0 ? pb : b, c;     /* the operands' values at the assignment, as terminal handles */
+    /* the operands' values at the assignment, as terminal handles.  A terminal of an identity-reduced forest reached across skipped levels is the
+     * identity pattern: its value off the diagonal is 0 (the otherwise unused ghost of a terminal operand selects 'off the diagonal') */
+    node_handle va = a > 0 ? pa : ((forest__isIdentityReduced(fa) && pa == 0) ? 0 : a), vb = b > 0 ? pb : ((forest__isIdentityReduced(fb) && pb == 0) ? 0 : b), c;
     { node_handle a1 = a; c = 0;
       if (mt_min__simplifiesToFirstArg(0, fa, &a1, fb, b)) {
-          if (a1 == a || a1 <= 0) { node_handle want = a1 > 0 ? pa : a1; mt_min__apply(fa, va, fb, vb, fc, &c); if (verif_exc == 0 && c == want) ok |= 1; verif_exc = 0; }
+          if (a1 == a || a1 <= 0) { node_handle want = a1 == a ? va : a1; mt_min__apply(fa, va, fb, vb, fc, &c); if (verif_exc == 0 && c == want) ok |= 1; verif_exc = 0; }
       } else ok |= 1; }
     { node_handle b1 = b; c = 0;
       if (mt_min__simplifiesToSecondArg(0, fa, a, fb, &b1)) {
-          if (b1 == b || b1 <= 0) { node_handle want = b1 > 0 ? pb : b1; mt_min__apply(fa, va, fb, vb, fc, &c); if (verif_exc == 0 && c == want) ok |= 2; verif_exc = 0; }
+          if (b1 == b || b1 <= 0) { node_handle want = b1 == b ? vb : b1; mt_min__apply(fa, va, fb, vb, fc, &c); if (verif_exc == 0 && c == want) ok |= 2; verif_exc = 0; }
       } else ok |= 2; }
     return ok;
 }
@@ -683,11 +704,11 @@ int lemma_evplus_max_shortcuts_pw(struct forest *f1, struct forest *f2, const st
 {
     int ok = 0;
     struct edge_value pa, pb, cv, want; node_handle pan, pbn, cn, wn;
-    evp_point(av_->ev_long, ap, da, dai, &pa, &pan); evp_point(bv_->ev_long, bp, db, dbi, &pb, &pbn);
+    evp_point_f(f1, av_->ev_long, ap, da, dai, &pa, &pan); evp_point_f(f2, bv_->ev_long, bp, db, dbi, &pb, &pbn);
     { node_handle an1 = ap;
       if (evplus_max__simplifiesToFirstArg(0, f1, av_, &an1, f2, bv_, bp)) {
           if (an1 == ap || an1 <= 0) {
-              evp_point(av_->ev_long, an1, da, dai, &want, &wn);
+              evp_point_f(f1, av_->ev_long, an1, da, dai, &want, &wn);
               evplus_max__apply(&pa, pan, &pb, pbn, &cv, &cn);
               if (verif_exc == 0 && cn == wn && (cn == OMEGA_INFINITY || (cv.mytype == edge_type__LONG && cv.ev_long == want.ev_long))) ok |= 1;
               verif_exc = 0;
@@ -696,7 +717,7 @@ int lemma_evplus_max_shortcuts_pw(struct forest *f1, struct forest *f2, const st
     { node_handle bn1 = bp;
       if (evplus_max__simplifiesToSecondArg(0, f1, av_, ap, f2, bv_, &bn1)) {
           if (bn1 == bp || bn1 <= 0) {
-              evp_point(bv_->ev_long, bn1, db, dbi, &want, &wn);
+              evp_point_f(f2, bv_->ev_long, bn1, db, dbi, &want, &wn);
               evplus_max__apply(&pa, pan, &pb, pbn, &cv, &cn);
               if (verif_exc == 0 && cn == wn && (cn == OMEGA_INFINITY || (cv.mytype == edge_type__LONG && cv.ev_long == want.ev_long))) ok |= 2;
               verif_exc = 0;
@@ -728,11 +749,11 @@ int lemma_evplus_min_shortcuts_pw(struct forest *f1, struct forest *f2, const st
 {
     int ok = 0;
     struct edge_value pa, pb, cv, want; node_handle pan, pbn, cn, wn;
-    evp_point(av_->ev_long, ap, da, dai, &pa, &pan); evp_point(bv_->ev_long, bp, db, dbi, &pb, &pbn);
+    evp_point_f(f1, av_->ev_long, ap, da, dai, &pa, &pan); evp_point_f(f2, bv_->ev_long, bp, db, dbi, &pb, &pbn);
     { node_handle an1 = ap;
       if (evplus_min__simplifiesToFirstArg(0, f1, av_, &an1, f2, bv_, bp)) {
           if (an1 == ap || an1 <= 0) {
-              evp_point(av_->ev_long, an1, da, dai, &want, &wn);
+              evp_point_f(f1, av_->ev_long, an1, da, dai, &want, &wn);
               evplus_min__apply(&pa, pan, &pb, pbn, &cv, &cn);
               if (verif_exc == 0 && cn == wn && (cn == OMEGA_INFINITY || (cv.mytype == edge_type__LONG && cv.ev_long == want.ev_long))) ok |= 1;
               verif_exc = 0;
@@ -741,7 +762,7 @@ int lemma_evplus_min_shortcuts_pw(struct forest *f1, struct forest *f2, const st
     { node_handle bn1 = bp;
       if (evplus_min__simplifiesToSecondArg(0, f1, av_, ap, f2, bv_, &bn1)) {
           if (bn1 == bp || bn1 <= 0) {
-              evp_point(bv_->ev_long, bn1, db, dbi, &want, &wn);
+              evp_point_f(f2, bv_->ev_long, bn1, db, dbi, &want, &wn);
               evplus_min__apply(&pa, pan, &pb, pbn, &cv, &cn);
               if (verif_exc == 0 && cn == wn && (cn == OMEGA_INFINITY || (cv.mytype == edge_type__LONG && cv.ev_long == want.ev_long))) ok |= 2;
               verif_exc = 0;
@@ -766,6 +787,11 @@ static void evf_point(node_handle n, long d, _Bool di, long *pv, node_handle *pn
     else { *pn = OMEGA_NORMAL; *pv = d; }
 }
 
+static void evf_point_f(const struct forest *f, node_handle n, long d, _Bool di, long *pv, node_handle *pn)
+{
+    if (n == OMEGA_NORMAL && forest__isIdentityReduced(f) && di) { *pn = OMEGA_INFINITY; *pv = 0; }      /* identity pattern, off the diagonal */
+    else evf_point(n, d, di, pv, pn);
+}
 int lemma_evplus_plus_kernel(struct forest *fa, struct forest *fb, struct forest *fc, node_handle a, node_handle b, const struct edge_value *av_, const struct edge_value *bv_)
 {
     _Bool ai = (a == OMEGA_INFINITY), bi = (b == OMEGA_INFINITY);
@@ -792,14 +818,14 @@ int lemma_evplus_plus_shortcuts_pw(struct forest *fa, struct forest *fb, struct 
 {
     int ok = 0;
     long pav, pbv, wv; node_handle pan, pbn, wn;
-    evf_point(a, da, dai, &pav, &pan); evf_point(b, db, dbi, &pbv, &pbn);
+    evf_point_f(fa, a, da, dai, &pav, &pan); evf_point_f(fb, b, db, dbi, &pbv, &pbn);
     { node_handle a1 = a;
       if (evplus_plus__simplifiesToFirstArg(0, fa, &a1, fb, b)) {
-          if (a1 == a || a1 <= 0) { evf_point(a1, da, dai, &wv, &wn); if (evf_plus_agrees(fa, fb, fc, pav, pan, pbv, pbn, wv, wn)) ok |= 1; }
+          if (a1 == a || a1 <= 0) { evf_point_f(fa, a1, da, dai, &wv, &wn); if (evf_plus_agrees(fa, fb, fc, pav, pan, pbv, pbn, wv, wn)) ok |= 1; }
       } else ok |= 1; }
     { node_handle b1 = b;
       if (evplus_plus__simplifiesToSecondArg(0, fa, a, fb, &b1)) {
-          if (b1 == b || b1 <= 0) { evf_point(b1, db, dbi, &wv, &wn); if (evf_plus_agrees(fa, fb, fc, pav, pan, pbv, pbn, wv, wn)) ok |= 2; }
+          if (b1 == b || b1 <= 0) { evf_point_f(fb, b1, db, dbi, &wv, &wn); if (evf_plus_agrees(fa, fb, fc, pav, pan, pbv, pbn, wv, wn)) ok |= 2; }
       } else ok |= 2; }
     { if (a > 0 && evplus_plus__stopOnEqualArgs()) {     /* two equal terminals go to the kernel first */            /* makeEqualResult yields the constant 0: op(x, x) must be defined and 0 at every assignment */
           if (evf_plus_agrees(fa, fa, fc, pav, pan, pav, pan, 0, OMEGA_NORMAL)) ok |= 4;
@@ -836,14 +862,14 @@ int lemma_evplus_minus_shortcuts_pw(struct forest *fa, struct forest *fb, struct
 {
     int ok = 0;
     long pav, pbv, wv; node_handle pan, pbn, wn;
-    evf_point(a, da, dai, &pav, &pan); evf_point(b, db, dbi, &pbv, &pbn);
+    evf_point_f(fa, a, da, dai, &pav, &pan); evf_point_f(fb, b, db, dbi, &pbv, &pbn);
     { node_handle a1 = a;
       if (evplus_minus__simplifiesToFirstArg(0, fa, &a1, fb, b)) {
-          if (a1 == a || a1 <= 0) { evf_point(a1, da, dai, &wv, &wn); if (evf_minus_agrees(fa, fb, fc, pav, pan, pbv, pbn, wv, wn)) ok |= 1; }
+          if (a1 == a || a1 <= 0) { evf_point_f(fa, a1, da, dai, &wv, &wn); if (evf_minus_agrees(fa, fb, fc, pav, pan, pbv, pbn, wv, wn)) ok |= 1; }
       } else ok |= 1; }
     { node_handle b1 = b;
       if (evplus_minus__simplifiesToSecondArg(0, fa, a, fb, &b1)) {
-          if (b1 == b || b1 <= 0) { evf_point(b1, db, dbi, &wv, &wn); if (evf_minus_agrees(fa, fb, fc, pav, pan, pbv, pbn, wv, wn)) ok |= 2; }
+          if (b1 == b || b1 <= 0) { evf_point_f(fb, b1, db, dbi, &wv, &wn); if (evf_minus_agrees(fa, fb, fc, pav, pan, pbv, pbn, wv, wn)) ok |= 2; }
       } else ok |= 2; }
     { if (a > 0 && evplus_minus__stopOnEqualArgs()) {     /* two equal terminals go to the kernel first */            /* makeEqualResult yields the constant 0: op(x, x) must be defined and 0 at every assignment */
           if (evf_minus_agrees(fa, fa, fc, pav, pan, pav, pan, 0, OMEGA_NORMAL)) ok |= 4;
@@ -875,6 +901,11 @@ static void evs_point(node_handle n, float d, float *pv, node_handle *pn)
     else if (d == 0.0f) { *pn = OMEGA_ZERO; *pv = 0.0f; }
     else { *pn = OMEGA_NORMAL; *pv = d; }
 }
+static void evs_point_f(const struct forest *f, node_handle n, float d, float *pv, node_handle *pn)
+{
+    if (n == OMEGA_NORMAL && forest__isIdentityReduced(f) && d == 0.0f) { *pn = OMEGA_ZERO; *pv = 0.0f; }   /* identity pattern, off the diagonal (EV*: zero) */
+    else evs_point(n, d, pv, pn);
+}
 /* kernel (node level, then edge level) on two point values; 1 iff it raises nothing and yields the value (wv, wn) */
 static int evs_div_agrees(struct forest *fa, struct forest *fb, struct forest *fc, float pav, node_handle pan, float pbv, node_handle pbn, float wv, node_handle wn)
 {
@@ -890,14 +921,14 @@ int lemma_evstar_div_shortcuts_pw(struct forest *fa, struct forest *fb, struct f
 {
     int ok = 0;
     float pav, pbv, wv; node_handle pan, pbn, wn;
-    evs_point(a, da, &pav, &pan); evs_point(b, db, &pbv, &pbn);
+    evs_point_f(fa, a, da, &pav, &pan); evs_point_f(fb, b, db, &pbv, &pbn);
     { node_handle a1 = a;
       if (evstar_div__simplifiesToFirstArg(0, fa, &a1, fb, b)) {
-          if (a1 == a || a1 <= 0) { evs_point(a1, da, &wv, &wn); if (evs_div_agrees(fa, fb, fc, pav, pan, pbv, pbn, wv, wn)) ok |= 1; }
+          if (a1 == a || a1 <= 0) { evs_point_f(fa, a1, da, &wv, &wn); if (evs_div_agrees(fa, fb, fc, pav, pan, pbv, pbn, wv, wn)) ok |= 1; }
       } else ok |= 1; }
     { node_handle b1 = b;
       if (evstar_div__simplifiesToSecondArg(0, fa, a, fb, &b1)) {
-          if (b1 == b || b1 <= 0) { evs_point(b1, db, &wv, &wn); if (evs_div_agrees(fa, fb, fc, pav, pan, pbv, pbn, wv, wn)) ok |= 2; }
+          if (b1 == b || b1 <= 0) { evs_point_f(fb, b1, db, &wv, &wn); if (evs_div_agrees(fa, fb, fc, pav, pan, pbv, pbn, wv, wn)) ok |= 2; }
       } else ok |= 2; }
     { if (a > 0 && evstar_div__stopOnEqualArgs()) {      /* makeEqualResult yields the constant 1: x/x must be defined and 1 at every assignment */
           if (evs_div_agrees(fa, fa, fc, pav, pan, pav, pan, 1.0f, OMEGA_NORMAL)) ok |= 4;
